@@ -1,5 +1,6 @@
 import PyemvGen.TlvGen
 import PyemvProofs.TlvLen
+import PyemvProofs.TlvConvert
 /-!
 # The definitions translated from `pyemv/tlv.py` equal the hand-written model
 
@@ -158,6 +159,15 @@ theorem tlv_decode {α} (conv : Bytes → Bytes → α) (fl si : Option Bool) (d
   unfold TlvGen.decode decodeC
   rw [decode_loop_eq]
   cases fl <;> cases si <;> rfl
+
+/-- **the chain to the property theorems**: the decoder translated from the source, run with any conversion
+function, stands in the naturality relation to the model's plain `decode` — same success or failure, same fault
+kind, tag and offset, dictionaries related by mapping the conversion over the primitive values — and its call
+log is the list of primitive objects of the parse.  C09, C17 and C18 are stated about `decode`, `decodeC` and
+`parseItems`; this carries them to what the source says. -/
+theorem tlv_decode_sim {α} (conv : Bytes → Bytes → α) (fl si : Option Bool) (data : Bytes) :
+    Refine.SimRel conv (Tlv.decode (fl.getD false) (si.getD false) data) (TlvGen.decode conv fl si data) := by
+  rw [tlv_decode]; exact Refine.decodeC_sim conv _ _ data
 
 /-! ### `_encode` -/
 
